@@ -156,3 +156,48 @@ Proof.
     rewrite (dims_are_axes specs ms a Hc Hms Ha (Hnc _ _ Hms Ha)). cbn [bind]. now eexists.
   - rewrite Ha. cbn [bind]. now eexists.
 Qed.
+
+(* the dataset-level coordinate theorems without any `... = Ok _` hypothesis *)
+Theorem dataset_labels_total specs inputs outputs li :
+  NoDup (out_names specs) -> topo_specs specs = true -> consistent (all_aspecs specs) = true ->
+  forallb wf_aspec (all_aspecs specs) = true ->
+  (forall m a, In m specs -> In a (outs m) -> no_colon_axes a) ->
+  arrays_known specs inputs outputs ->
+  exists ds, dataset_vars specs inputs outputs li = Ok ds
+    /\ (forall o ms, computed_by specs o = Some ms -> In o outputs ->
+          exists a, In a (ds_arrays ds) /\ da_name a = o
+                    /\ exists asp, In asp (outs ms) /\ aname asp = o /\ da_dims a = indices asp)
+    /\ (forall o ms k x, computed_by specs o = Some ms -> In o outputs ->
+          one_dimensional specs x -> visible inputs li x = true ->
+          In x (carried (trace_fuel specs) specs o k) ->
+          (exists c, In c (ds_coords ds) /\ co_axes c = [k] /\ In x (co_srcs c))
+          /\ (forall c, In c (ds_coords ds) -> In x (co_srcs c) -> co_axes c = [k]))
+    /\ (forall o ms k x z, computed_by specs o = Some ms -> In o outputs ->
+          one_dimensional specs x -> visible inputs li x = true ->
+          one_dimensional specs z -> visible inputs li z = true ->
+          In x (carried (trace_fuel specs) specs o k) -> In z (carried (trace_fuel specs) specs o k) -> x <> z ->
+          exists c, In c (ds_coords ds) /\ co_axes c = [k] /\ In x (co_srcs c) /\ In z (co_srcs c)
+                    /\ co_name c = join (s ":") (co_srcs c)).
+Proof.
+  intros Hnd Ht Hc Hwf Hnc Hk.
+  destruct (dataset_vars_total specs inputs outputs li Hnd Ht Hc Hnc Hk) as [ds Hds]. exists ds.
+  split; [assumption|]. split; [|split].
+  - intros o ms Hcomp Ho.
+    destruct (proj2 (dataset_arrays_spec _ _ _ _ _ Hnd Hc Hwf Hnc Hds) o ms Hcomp Ho) as [a [Ha Hna]].
+    exists a. repeat split; try assumption.
+    unfold computed_by in Hcomp. apply find_some in Hcomp as [Hms Hcomp]. apply andb_true_iff in Hcomp as [_ Hcomp].
+    apply mem_str_In, in_map_iff in Hcomp as [asp [En Hasp]]. exists asp. repeat split; try assumption.
+    assert (Hd : dims_of specs (da_name a) = Ok (da_dims a)).
+    { clear - Hds Ha. unfold dataset_vars in Hds.
+      match type of Hds with (do arrays <- ?E; _) = _ => destruct E as [arrays|] eqn:A end; [|discriminate].
+      cbn [bind] in Hds. injection Hds as <-. cbn [ds_arrays] in Ha.
+      apply filter_In in Ha as [Ha _]. apply dset_fold_In in Ha as [[]|Ha].
+      apply mapM_inv in A. destruct (Forall2_In_r _ _ _ _ A Ha) as [o' [_ Hf]].
+      destruct (coords_of specs inputs outputs li o'); [|discriminate]. cbn [bind] in Hf.
+      destruct (dims_of specs o') as [dm|] eqn:D; [|discriminate]. cbn [bind] in Hf. injection Hf as <-. exact D. }
+    rewrite Hna, <- En, (dims_are_axes specs ms asp Hc Hms Hasp (Hnc _ _ Hms Hasp)) in Hd. now injection Hd.
+  - intros o ms k x Hcomp Ho H1 Hv Hx.
+    exact (dataset_coord_on_exact_axis _ _ _ _ _ _ _ _ _ Hnd Hc Hwf Hnc Hds Hcomp Ho H1 Hv Hx).
+  - intros o ms k x z Hcomp Ho H1 Hv H1z Hvz Hx Hz Hne.
+    exact (dataset_zipped_multiindex _ _ _ _ _ _ _ _ _ _ Hnd Hc Hwf Hnc Hds Hcomp Ho H1 Hv H1z Hvz Hx Hz Hne).
+Qed.
